@@ -1548,6 +1548,11 @@ def struct_eq(engine, st, a, b):
         return z3.And(*[struct_eq(engine, st, x, y) for x, y in zip(a.fields, b.fields)]) if a.fields else z3.BoolVal(True)
     if isinstance(a, Sym) and isinstance(b, Sym) and a.name == b.name and not a.over and not b.over:
         return z3.BoolVal(True)
+    if isinstance(a, Sym) and isinstance(b, Sym) and not a.over and not b.over:
+        # opaque values: an uninterpreted equality atom (same atom for the same pair)
+        return z3.Bool("eq(%s,%s)" % tuple(sorted([a.name, b.name])))
+    if isinstance(a, FnV) and isinstance(b, FnV):
+        return z3.BoolVal(a.name == b.name)
     raise Unsupported("structural equality of %r and %r" % (a, b))
 
 
